@@ -60,6 +60,8 @@ var pools = []poolDef{
 	{"tuple(number,string)", cty.Tuple([]cty.Type{cty.Number, cty.String})},
 	{"list(object{a:number})", cty.List(objT(map[string]cty.Type{"a": cty.Number}))},
 	{"set(list(number))", cty.Set(cty.List(cty.Number))},
+	{"map(string)", cty.Map(cty.String)},
+	{"list(list(string))", cty.List(cty.List(cty.String))},
 	{"capsuleB", model.CapsuleB},
 	{"capsuleA", model.CapsuleA},
 }
@@ -92,6 +94,12 @@ func longStrings() []cty.Value {
 	z300 := strings.Repeat("zy;", 100)
 	return []cty.Value{cty.StringVal(k64 + "a"), cty.StringVal(k64 + "b"), cty.StringVal(k64), cty.StringVal(k63 + "a"), cty.StringVal(k63 + "b"),
 		cty.StringVal(e100 + "1"), cty.StringVal(e100 + "2"), cty.StringVal(z300 + "p"), cty.StringVal(z300 + "q")}
+}
+
+// forgedJoins returns a and b joined by every spelling of the member delimiter of the set hash bytes
+// (`;` between members, strings quoted with `"`), so that the ONE string reads like the TWO members a, b.
+func forgedJoins(a, b string) []string {
+	return []string{a + "\";\"" + b, a + ";" + b, a + "\";" + b, a + ";\"" + b, a + "\\\";\\\"" + b}
 }
 
 func specialStrings() []cty.Value {
@@ -133,6 +141,49 @@ func buildPool(r *core.Rand, p poolDef, size int) []cty.Value {
 		}
 		add(cty.ListVal([]cty.Value{cty.StringVal("a"), cty.StringVal("b")}))
 		add(cty.ListVal([]cty.Value{cty.StringVal("a;b")}))
+		// forging family: one string that spells out the delimiters which the set hash / ordering bytes put
+		// BETWEEN members, next to the members spelled separately (a hash or order that stops escaping or
+		// quoting strings confuses them)
+		for _, f := range forgedJoins("a", "b") {
+			add(cty.ListVal([]cty.Value{cty.StringVal(f)}))
+		}
+		add(cty.ListVal([]cty.Value{cty.StringVal("a\""), cty.StringVal("\"b")}))
+		add(cty.ListVal([]cty.Value{cty.StringVal("a\\"), cty.StringVal("b")}))
+	case ty.Equals(cty.Map(cty.String)):
+		add(cty.MapValEmpty(cty.String))
+		add(cty.MapVal(map[string]cty.Value{"k": cty.StringVal("v"), "l": cty.StringVal("w")}))
+		add(cty.MapVal(map[string]cty.Value{"k": cty.StringVal("v")}))
+		for _, f := range forgedJoins("v", "w") {
+			add(cty.MapVal(map[string]cty.Value{"k": cty.StringVal(f)}))
+		}
+		for _, j := range []string{"\":\"", ":", "\":", ":\""} {
+			// the key/value separator inside a key, and the member separator + next key inside a value
+			add(cty.MapVal(map[string]cty.Value{"k" + j + "v": cty.StringVal("w")}))
+			for _, f := range forgedJoins("v", "l") {
+				add(cty.MapVal(map[string]cty.Value{"k": cty.StringVal(f + j + "w")}))
+			}
+		}
+		for _, ls := range longStrings() {
+			add(cty.MapVal(map[string]cty.Value{"k": ls}))
+		}
+	case ty.Equals(cty.List(cty.List(cty.String))):
+		sl := func(ss ...string) cty.Value {
+			vs := make([]cty.Value, len(ss))
+			for i, x := range ss {
+				vs[i] = cty.StringVal(x)
+			}
+			return cty.ListVal(vs)
+		}
+		add(cty.ListValEmpty(cty.List(cty.String)))
+		add(cty.ListVal([]cty.Value{sl("a", "b")}))
+		add(cty.ListVal([]cty.Value{sl("a"), sl("b")}))
+		add(cty.ListVal([]cty.Value{sl("a"), cty.ListValEmpty(cty.String), sl("b")}))
+		for _, f := range forgedJoins("a", "b") {
+			add(cty.ListVal([]cty.Value{sl(f)}))
+		}
+		for _, f := range []string{"a];[b", "a\"];[\"b", "a\";];[\"b", "a;];[b"} {
+			add(cty.ListVal([]cty.Value{sl(f)}))
+		}
 	case ty.Equals(cty.Set(cty.Number)):
 		add(cty.SetValEmpty(cty.Number))
 		for i := 0; i+1 < len(nums); i += 2 {
